@@ -321,6 +321,20 @@ def gen_lang_oracle(rng, n):
 
 
 # ------------------------------------------------------------------ oracle: k-multiple / even
+def multiple_ref(ref, starts, k):
+    """the k-step reachable closure of the start vertices with one edge per k-walk"""
+    reach, todo = set(starts), list(starts)
+    E = set()
+    while todo:
+        v = todo.pop()
+        for w, e in ref.lang(v, k):
+            E.add((v, "".join(w), e))
+            if e not in reach:
+                reach.add(e)
+                todo.append(e)
+    return U.Ref(reach, E)
+
+
 def run_multiple_oracle(inp):
     A, ref = make(inp)
     starts = list(A.start_vertices)
@@ -343,16 +357,7 @@ def run_multiple_oracle(inp):
         if k >= 1 and (got != want or any(c > 1 for c in got.values())):
             bad.append(["multiple-language", k, sorted(got.elements())[:8], sorted(want.elements())[:8]])
         # the result is itself a coherent automaton: k-step reachable closure, one edge per k-path
-        reach, todo = set(starts), list(starts)
-        E = set()
-        while todo:
-            v = todo.pop()
-            for w, e in ref.lang(v, k):
-                E.add((v, "".join(w), e))
-                if e not in reach:
-                    reach.add(e)
-                    todo.append(e)
-        pb = U.coherence_problems(U.views(B), U.Ref(reach, E))
+        pb = U.coherence_problems(U.views(B), multiple_ref(ref, starts, k))
         if pb:
             bad.append(["multiple-views", k] + pb)
         # walking in the multiple automaton by blocks of k letters = walking in the original
@@ -485,6 +490,13 @@ def run_rlp_oracle(inp):
             pb = U.coherence_problems(vw, U.Ref(ref.V, kept))
             if pb:
                 bad.append(["rlp-views", root, ties] + pb)
+            if list(H.start_vertices) != [r0]:
+                bad.append(["rlp-start-vertex", root, list(H.start_vertices)])
+            else:
+                hw = collections.Counter(H.enumerate_words(3))
+                want_w = collections.Counter("".join(w) for n in range(4) for w, _ in U.Ref(ref.V, kept).lang(r0, n))
+                if hw != want_w or not H.accepts(""):
+                    bad.append(["rlp-language-from-root", root, ties])
             if ties and kept != on_shortest:
                 bad.append(["rlp-ties", root, sorted(kept, key=repr), sorted(on_shortest, key=repr)])
             if not ties:
@@ -507,6 +519,151 @@ def gen_rlp_oracle(rng, n):
         a = dict(a)
         a["maxroots"] = 4
         yield a
+
+
+# ------------------------------------------------------------------ oracle: aliasing between automata
+DERIVE = ["deepcopy", "recurrent", "rename", "multiple1", "multiple2", "multiple3", "even", "rlp_ties", "rlp_tree"]
+
+
+def derive(A, ref, how):
+    if how == "deepcopy":
+        return copy.deepcopy(A)
+    if how == "recurrent":
+        return A.recurrent(inplace=False)
+    if how == "rename":
+        return A.rename_generators({l: l.upper() if l.upper() != l else l.lower() for l in labels_of(ref)}, inplace=False)
+    if how.startswith("multiple"):
+        with U.time_limit(MULT_SECONDS):
+            return A.automaton_multiple(int(how[-1]))
+    if how == "even":
+        with U.time_limit(MULT_SECONDS):
+            return A.even_automaton()
+    return A.remove_long_paths(edge_ties=(how == "rlp_ties"))
+
+
+def snap(A):
+    return json_key(U.canon(U.views(A)))
+
+
+def json_key(x):
+    import json
+    return json.dumps(x, sort_keys=True, default=repr)
+
+
+def mutate_all(B):
+    """edit an automaton in place in every way the class offers (each edit on its own: some may raise)"""
+    edits = []
+    pairs = [(v, w) for v in list(B.vertices()) for w in list(B.neighbors_out(v))]
+    verts = list(B.vertices())
+    edits.append(lambda: B.add_edges([(v, w, "_p") for v, w in pairs]))                   # appends to existing label lists
+    edits.append(lambda: B.add_edges([(v, w, ["_q", "_r"]) for v, w in pairs[:2]], elist=True))
+    edits.append(lambda: B.add_vertices(["_n"]))
+    edits.append(lambda: B.add_edges([("_n", verts[0] if verts else "_n", "_e"), (verts[-1] if verts else "_n", "_m", "_f")]))
+    edits.append(lambda: B.start_vertices.append("_s"))
+    edits.append(lambda: B.start_vertices.__setitem__(0, "_t"))
+    edits.append(lambda: B.delete_vertex(verts[0]))
+    edits.append(lambda: B.delete_vertices(verts[1:2]))
+    edits.append(lambda: B.rename_generators({l: str(l) + "_" for l in {l for _, _, l in B.edges(with_labels=True)}}, inplace=True))
+    edits.append(lambda: B.recurrent(inplace=True))
+    edits.append(lambda: B.add_vertices(["_after"]))
+    for e in edits:
+        try:
+            e()
+        except Exception:
+            pass
+
+
+def run_alias_oracle(inp):
+    bad = []
+    kept = []          # (description, automaton, snapshot, reference-or-None): re-examined at the very end
+    for idx, a in enumerate(inp["autos"]):
+        A, ref = make(a)
+        starts = list(A.start_vertices)
+        ok_start = bool(starts) and set(starts) <= ref.V
+        kept.append((["original", idx], A, snap(A)))
+        for how in DERIVE:
+            if how != "deepcopy" and how != "recurrent" and how != "rename" and not ok_start:
+                continue
+            if how.startswith("multiple") and multiple_pops(ref, starts, int(how[-1]), 200) > 200:
+                continue
+            if how == "even" and multiple_pops(ref, starts, 2, 200) > 200:
+                continue
+            # (a) editing the result must not change the original
+            A1, _ = make(a)
+            before = snap(A1)
+            try:
+                B = derive(A1, ref, how)
+            except U.CallTimeout:
+                bad.append(["did-not-return", idx, how])
+                continue
+            mutate_all(B)
+            if snap(A1) != before:
+                bad.append(["editing-the-result-changed-the-original", idx, how])
+            # (b) editing the original must not change the result
+            A2, _ = make(a)
+            B2 = derive(A2, ref, how)
+            b_before = snap(B2)
+            mutate_all(A2)
+            if snap(B2) != b_before:
+                bad.append(["editing-the-original-changed-the-result", idx, how])
+            # (c) results of one process do not depend on what was built before: compare with the reference, keep for later
+            B3 = derive(A, ref, how)
+            if how.startswith("multiple") or how == "even":
+                k = 2 if how == "even" else int(how[-1])
+                pb = U.coherence_problems(U.views(B3), multiple_ref(ref, starts, k))
+                if pb or list(B3.start_vertices) != starts:
+                    bad.append(["derived-automaton-differs-from-reference", idx, how] + pb)
+            kept.append((["derived", idx, how], B3, snap(B3)))
+    # (d) the constructor neither keeps nor modifies its arguments
+    for idx, a in enumerate(inp["autos"]):
+        init = a["init"]
+        if init["route"] not in ("graph", "out"):
+            continue
+        if init["route"] == "graph":
+            arg = {v: {l: w for l, w in d} for v, d in init["d"]}
+        else:
+            arg = {v: {w: list(ls) for w, ls in d} for v, d in init["d"]}
+        st = list(init["starts"])
+        arg0, st0 = copy.deepcopy(arg), list(st)
+        A = FSA(arg, start_vertices=st, graph_dict=(init["route"] == "graph"))
+        if arg != arg0 or st != st0:
+            bad.append(["constructor-modified-its-argument", idx, init["route"]])
+        before = snap(A)
+        for v in list(arg):
+            if init["route"] == "graph":
+                arg[v]["_z"] = v
+            else:
+                for w in arg[v]:
+                    arg[v][w].append("_z")
+                arg[v]["_w"] = ["_y"]
+        arg["_k"] = {}
+        st.append("_s")
+        if snap(A) != before:
+            bad.append(["editing-the-constructor-argument-changed-the-automaton", idx, init["route"]])
+        arg1, st1 = copy.deepcopy(arg), list(st)
+        mutate_all(A)
+        if arg != arg1 or st != st1:
+            bad.append(["editing-the-automaton-changed-the-constructor-argument", idx, init["route"]])
+    # (e) nothing built later has touched anything built earlier; the class defaults are still empty
+    for desc, X, s0 in kept:
+        if snap(X) != s0:
+            bad.append(["changed-by-later-constructions"] + desc)
+    E = FSA()
+    if list(E.vertices()) or list(E.start_vertices) or list(E.edges()):
+        bad.append(["FSA()-is-not-empty-any-more", list(E.vertices()), list(E.start_vertices)])
+    return {"bad": bad[:5]}
+
+
+def gen_alias_oracle(rng, n):
+    for _ in range(n):
+        autos = []
+        for _ in range(rng.choice([2, 3, 4])):
+            a = rand_aut(rng)
+            if rng.random() < 0.3 and a["init"]["route"] in ("graph", "out"):
+                a["init"]["starts"] = a["init"]["starts"] + [rng.choice(U.VS)]      # several start vertices
+            autos.append(a)
+        yield {"autos": autos}
+
 
 
 CLAUSES = [
@@ -542,5 +699,13 @@ CLAUSES = [
     Clause("rlp_oracle", "oracle", gen_rlp_oracle, run_rlp_oracle,
            judge_bad("remove_long_paths keeps exactly the edges with dist(head) = dist(tail)+1 (edge_ties) / a spanning tree of them (no ties)"),
            site="fsa.FSA.remove_long_paths", budget={"quick": 600, "thorough": 6000},
-           what="independent BFS distances, every root, both edge_ties settings, original unchanged"),
+           what="independent BFS distances, every root, both edge_ties settings, original unchanged; the result starts at the root and enumerates its language"),
+    Clause("alias_oracle", "oracle", gen_alias_oracle, run_alias_oracle,
+           judge_bad("automata of one process are independent objects: editing a derived automaton (views or start list) never changes the original, "
+                     "and vice versa; the constructor neither keeps nor modifies its arguments; later constructions never change earlier automata"),
+           site="fsa.FSA.__init__/recurrent/rename_generators/automaton_multiple/even_automaton/remove_long_paths + copy.deepcopy",
+           budget={"quick": 60, "thorough": 1500},
+           what="2-4 automata per case built and derived (deepcopy, recurrent, rename, multiple 1-3, even, remove_long_paths x2) in ONE process; every "
+                "in-place edit (parallel labels, elist, vertices, edges, start list append/assign, delete, rename, recurrent) applied to result / "
+                "original / constructor argument; all earlier snapshots re-examined at the end; k-multiples compared with the reference closure"),
 ]
